@@ -100,4 +100,14 @@ theorem specConserved_congr (x out out' : Img Rat)
     exact h q.1 q.2 hq.1 hq.2
   rw [this]
 
+/-- reading a list through `src` at the selected positions is reading it at `nidx` -/
+theorem map_src_eq (idx nidx : List Nat) (hp : nidx.Perm idx) (hnd : idx.Nodup) {β : Type} (k : Nat → β) :
+    idx.map (fun f => k (src idx nidx f)) = nidx.map k := by
+  apply List.ext_getElem
+  · simp [hp.length_eq]
+  · intro i h1 h2
+    simp only [List.length_map] at h1 h2
+    simp only [List.getElem_map]
+    rw [src_getElem idx nidx hnd i h1 h2]
+
 end Pew.Colocal
